@@ -241,7 +241,7 @@ def parse_place(s: str, i: int = 0):
                 if not m:
                     raise AnalysisError(f'bad field place {s[i:]!r}')
                 k = _match_close(s, i)
-                p = ('fld', inner, int(m.group(1)))
+                p = ('fld', inner, int(m.group(1)), s[m.end():k].strip())          # MIR spells the field's type in the place
                 i = k + 1
             else:
                 raise AnalysisError(f'bad place {s[i:]!r}')
